@@ -165,6 +165,19 @@ func core(t *target, ti int) bool {
 	return t.Mode != "keyset" || len(t.Keys) > 1 || t.Keys[0].KT != "AESCTRHMAC" || ti%every == int(vt.Seed())%every
 }
 
+// polyvalCost reports whether judging t's events evaluates POLYVAL in TLA+ (AES-GCM-SIV somewhere in it).
+func polyvalCost(t *target) bool {
+	if t.Mode == "envelope" {
+		return dekByName(t.DEK).Cfg.KT == "AESGCMSIV"
+	}
+	for _, k := range t.Keys {
+		if k.KT == "AESGCMSIV" {
+			return true
+		}
+	}
+	return false
+}
+
 var boundaryLens = []int{0, 1, 15, 16, 17, 31, 32, 33, 63, 64, 65, 255, 256, 257}
 
 // ------------------------------------------------------------------ inputs
@@ -303,6 +316,9 @@ func requests(ts []*target, full bool) []sealReq {
 				q.Ad, _ = adOf(r, li+ti+1)
 				if *prop == "C01" && li == 3 && ki == 0 { // one specification-made ciphertext with long associated data
 					q.Ad = content(r, []int{256, 8192, 300, 8193}[ti%4], ti/4)
+					if !full && polyvalCost(t) {
+						q.Ad = q.Ad[:256+ti%4]
+					}
 				}
 				if t.Mode == "envelope" {
 					d := dekByName(t.DEK)
@@ -521,6 +537,9 @@ func runC01(x *runner, t *target, ti int, mine []sealReq, sealed map[int][]byte)
 	}
 	// long associated data: lengths whose bit length crosses 2^8 bytes / 2^16 bits (length encodings)
 	bigAD := []int{256, 257, 511, 8191, 8192, 8193, 1000, 4096}
+	if !x.full && polyvalCost(t) { // POLYVAL in TLA+ costs ~1.5 ms per block: keep the quick tier's long AD short there
+		bigAD = []int{256, 257, 511, 1000}
+	}
 	x.encrypt(t, content(x.r, 20, ti), content(x.r, bigAD[ti%len(bigAD)], ti/len(bigAD)))
 	if x.full {
 		x.encrypt(t, content(x.r, 33, ti), content(x.r, bigAD[(ti+3)%len(bigAD)], 0))
